@@ -8,6 +8,14 @@ CHECKS = {
    text="All time-scheme functions of _simu.py are extracted from the source at run time and executed on formal linear combinations (abstract K,C,M of any size, abstract state vectors, exact rational-function coefficients in dt,alpha,beta,gamma); update relations, evaluation points, discrete equation of motion, weights and the energy identities are decided as ring identities for all parameters and all prior states.",
    note="Trusted: Python semantics of the executed subset; floats read as exact rationals; scipy.sparse linear-algebra operators as formal algebra; sympy normal form. Energy clauses assume K,M symmetric (+ Newmark's own invariant M a_n + K u_n = 0). Dirichlet elimination is C04's contract.",
    technique="contract-based deductive verification: symbolic execution of the extracted real functions, VCs = rational-function identities discharged by ring normal form"),
+ "C06": dict(level="proof", design="DESIGN.md 3/C06",
+   text="All 19 Lagrange element classes and 4 Hermite beam families are re-assembled from the ASTs of Elems/*.py; every shape-function and derivative table entry is evaluated on the generators of QQ(r,s,t) and Kronecker property, partition of unity, polynomial completeness and the four derivative tables are decided as polynomial identities.",
+   note="Trusted: Python lambda/arithmetic semantics, float literals read as the decimal rationals they spell, sympy normal form and differentiation, element metadata from DICT_GMSH_DATA. Hermite clauses use an exactly-evaluated 1e-12 tolerance (decimal-typed tables). _Eval_Functions is checked at 4 concrete loop-bound tuples (bounded).",
+   technique="contract-based deductive verification: extracted tables evaluated in a polynomial ring, VCs = polynomial identities discharged by normal form"),
+ "C07": dict(level="proof", design="DESIGN.md 3/C07",
+   text="Every tabulated quadrature rule and every (element type, matrix type) pair of Gauss_factory is executed from the extracted AST in exact arithmetic (decimal literals as rationals, np.sqrt as algebraic numbers): points inside, weights positive and summing to the reference measure, exactness for every monomial of the documented order, and the necessary rank count on 2-element patches. Finite and ground, hence complete.",
+   note="Trusted: closed-form reference integrals, exact reading of literals, independence of sqrt(prime) generators, leggauss external (values checked at run time, labelled bounded). Tolerance 1e-13 x reference measure. Actual ranks of assembled matrices are C02's obligations. Known finding: TRI15 mass rule.",
+   technique="contract-based deductive verification: extracted rule tables executed exactly, ground VCs discharged by exact algebraic-number arithmetic"),
 }
 NOT_APPLICABLE = {
 }
